@@ -85,7 +85,7 @@ pub fn build(tier: Tier) -> Vec<Arc<ExchCfg>> {
 pub fn run(tier: Tier) -> Report {
     let cfgs = build(tier);
     crate::engine::WD_LIMIT_S.store(120, std::sync::atomic::Ordering::Relaxed);
-    let lim = Limits { max_states: 1_000_000, keep_final_traces: 2, keep_state_traces: 1, check_coreach: true, ..Default::default() };
+    let lim = Limits { max_states: 1_000_000, keep_final_traces: 2, keep_state_traces: 1, check_coreach: true, probe_every: 8, ..Default::default() };
     let mut rep = run_exchanges(cfgs, &lim, false, |c| c.to_json());
     let fs = rep.extra.get("final_states").and_then(|v| v.as_u64()).unwrap_or(0);
     rep.guard("final states reached", fs > 0);
